@@ -215,12 +215,8 @@ impl WorkerPool {
             let first_packet = match rx.recv_timeout(timeout) {
                 Ok(packet) => packet,
                 Err(RecvTimeoutError::Timeout) => {
-                    if shutdown_flag.load(Ordering::Relaxed) {
-                        tracing::debug!(
-                            "TCP worker {worker_id} received shutdown signal during timeout"
-                        );
-                        break;
-                    }
+                    // A packet may have been queued between the end of the wait and now; the
+                    // check at the top of the loop (shutdown requested and queue empty) decides.
                     continue;
                 }
                 Err(RecvTimeoutError::Disconnected) => {
